@@ -386,6 +386,7 @@ package common
 
 //@ func (*ConnectionSet).Union
 //@   requires wfCS(conn) && wfCS(other) && sepCS(conn, other)
+//@   hint loop2.preserve.others: inv.others, inv.wf, call3.*
 //@   modifies conn.AllowAll, conn.AllowedProtocols, conn.AllowedProtocols[*]
 //@   modifies PortSet.Ports { r | ownsPS(conn, r) }
 //@   modifies map[string]bool { m | ownsMap(conn, m) }
